@@ -46,7 +46,13 @@ IOL = ("io_constant", "io_identity", "io_strided", "io_morton", "io_hilbert", "i
        "io_nearest_neighbour", "io_shuffle", "io_covariant_cast", "io_dereference")     # harness/cxx2io.py
 
 
+BIN = ("read_io_header", "read_io_footer", "write_io_header", "write_io_footer", "read_binary", "magic")     # harness/cxx2bin.py
+
+
 def _translate(k):
+    if k in BIN:
+        from harness import cxx2bin
+        return cxx2bin.translate(str(C.REPO), k), {"scalars": [], "arrays": []}
     if k in IOL:
         from harness import cxx2io
         return cxx2io.translate(str(C.REPO), k), {"scalars": [], "arrays": []}
@@ -63,6 +69,9 @@ def _translate(k):
 
 
 def _where(k):
+    if k in BIN:
+        from harness import cxx2bin
+        return cxx2bin.KERNELS[k]
     if k in IOL:
         from harness import cxx2io
         return cxx2io.LAYERS[k] + " write_binary / read_binary"
